@@ -203,7 +203,7 @@ theorem C03_fail_inert (s : Srv) (e : Event) (hf : (step s e).2 = .fail ∨ ∃ 
 /-- **banned / blacklisted addresses are never authenticated.**  A message from a connection whose address is
 banned or blacklisted is never answered with success, and leaves every connection's authentication as it was. -/
 theorem C03_banned_never (s : Srv) (e : Event) (c : Nat) (hc : e.conn? = some c)
-    (hb : s.banned (s.ipOf c) = true ∨ s.env.bl (s.ipOf c) = true) :
+    (hb : s.banned (s.ipOf c) = true ∨ s.env.blocked (s.ipOf c) = true) :
     (step s e).2 ≠ .ok ∧ (∀ x, (step s e).2 ≠ .new x) ∧
     (∀ c', pairOf ((step s e).1.ctl c') = pairOf (s.ctl c') ∨ (step s e).1.ctl c' = none) := by
   have sp := stepCore_spec s e
@@ -230,6 +230,67 @@ theorem C03_banned_never (s : Srv) (e : Event) (c : Nat) (hc : e.conn? = some c)
     · exact Or.inl a
     · exact Or.inr a
     · exact absurd j (no _ c' x a)
+
+/-- **a blacklisting — of one address or of a whole CIDR range — holds for every later IPManager instance.**
+After ANY further history `es` that contains no removal of that entry (in particular: any number of `restart`s, i.e.
+new IPManager instances loading the list from storage), an address that was blacklisted directly or through a range
+containing it is still blocked, so by `C03_banned_never` no message from it is answered with success or changes
+anybody's authentication. -/
+theorem C03_blacklist_persists (s : Srv) (es : List Event) (ip : Nat) (hb : s.env.blocked ip = true)
+    (hno : Event.unbl ip ∉ es ∧ Event.unblr (ip / 2) ∉ es) : (runState s es).env.blocked ip = true := by
+  induction es generalizing s with
+  | nil => exact hb
+  | cons e es ih =>
+    simp only [List.mem_cons, not_or] at hno
+    apply ih _ _ ⟨hno.1.2, hno.2.2⟩
+    have he : (step s e).1.env = s.env.track s.now s.nClients e (stepCore s e).2 := rfl
+    rw [he]
+    simp only [Env.blocked, Bool.or_eq_true] at hb ⊢
+    cases e with
+    | unbl ip' =>
+      have hne : ip ≠ ip' := fun h => hno.1.1 (by rw [h])
+      simpa [Env.track, upd_other _ _ _ _ hne] using hb
+    | unblr g =>
+      have hne : ip / 2 ≠ g := fun h => hno.2.1 (by rw [h])
+      simpa [Env.track, upd_other _ _ _ _ hne] using hb
+    | bl ip' =>
+      rcases hb with hb | hb
+      · left; simp only [Env.track, upd_apply]; split <;> simp_all
+      · right; exact hb
+    | blr g =>
+      rcases hb with hb | hb
+      · left; exact hb
+      · right; simp only [Env.track, upd_apply]; split <;> simp_all
+    | hs c ty k rr =>
+      have : (s.env.track s.now s.nClients (.hs c ty k rr) (stepCore s (.hs c ty k rr)).2).bl = s.env.bl ∧
+          (s.env.track s.now s.nClients (.hs c ty k rr) (stepCore s (.hs c ty k rr)).2).blr = s.env.blr := by
+        generalize (stepCore s (.hs c ty k rr)).2 = r
+        cases r <;> try exact ⟨rfl, rfl⟩
+        cases rr <;> try exact ⟨rfl, rfl⟩
+        rename_i key nr
+        cases hn : s.env.resolveN nr <;> simp [Env.track, Env.resolve, hn]
+      rw [this.1, this.2]; exact hb
+    | exp k => simp only [Env.track]; split <;> exact hb
+    | del k => simp only [Env.track]; split <;> exact hb
+    | strip k st => simp only [Env.track]; split <;> exact hb
+    | fc c ty => exact hb
+    | mal c => exact hb
+    | ban ip' => exact hb
+    | unban ip' => exact hb
+    | refill ip' => exact hb
+    | restart => exact hb
+
+/-- … spelled out for the step right after a restart: a first-connection or handshake request from an address inside a
+blacklisted range is refused by the new instance as well. -/
+theorem C03_range_blocked_after_restart (s : Srv) (e : Event) (c : Nat) (hc : e.conn? = some c)
+    (hb : s.env.blr (s.ipOf c / 2) = true) :
+    (step (step s .restart).1 e).2 ≠ .ok ∧ (∀ x, (step (step s .restart).1 e).2 ≠ .new x) ∧
+    (∀ c', pairOf ((step (step s .restart).1 e).1.ctl c') = pairOf ((step s .restart).1.ctl c') ∨
+           (step (step s .restart).1 e).1.ctl c' = none) := by
+  apply C03_banned_never _ e c hc
+  right
+  show (s.env.bl (s.ipOf c) || s.env.blr (s.ipOf c / 2)) = true
+  simp [hb]
 
 /-- **unknown, deleted, expired or key-less clients are never authenticated**, and a success needs the right key
 over the pending nonce: if a handshake request is answered `ok` then it named a client of the table whose
@@ -370,6 +431,17 @@ example : holds ⟨1000, [0, 1], 2, 20, [.usable, .undec]⟩
     [.hs 0 .control (.idx 0) .none, .hs 0 .control (.idx 1) (.hmac .empty (.last 0))]
     [⟨.ch 0, ⟨[some ⟨false, none, some 0⟩, none], [none, none], [false, false], [false, false]⟩⟩,
      ⟨.ok, ⟨[some ⟨true, some 1, none⟩, none], [none, some 0], [false, false], [false, false]⟩⟩] = false := by decide
+
+/-- a blacklisted range blocks both addresses inside it (connections 0 and 1 on addresses 0 and 1 = range 0), also
+after a restart, and no longer after the range is removed -/
+example : (run hdr2.init [.blr 0, .fc 0 .control, .restart, .fc 1 .control, .hs 0 .control (.idx 0) .none,
+    .unblr 0, .restart, .fc 1 .control]).map (·.resp) = [.na, .fail, .na, .fail, .fail, .na, .na, .new 2] := by decide
+
+/-- the predicate rejects an observation in which an address inside a blacklisted range gets an identity after a restart -/
+example : holds hdr2 [.blr 0, .restart, .fc 1 .control]
+    [⟨.na, ⟨[none, none], [none, none], [false, false], [true, true]⟩⟩,
+     ⟨.na, ⟨[none, none], [none, none], [false, false], [false, false]⟩⟩,
+     ⟨.new 2, ⟨[none, some ⟨true, some 2, none⟩], [none, none, some 1], [false, false], [false, false]⟩⟩] = false := by decide
 
 /-- the predicate is not trivially true: an observation in which the replayed response is accepted is rejected -/
 example : holds hdr2 [.hs 0 .control (.idx 0) .none, .hs 0 .control (.idx 0) (.hmac 0 (.last 0)),
